@@ -203,6 +203,8 @@ class Spec(c01.Spec):
         st.broken = False
         st.raised = []
         st.es = [{1: {"sent"}}, {1: {"recv"}}]
+        st.sset, st.acks, st.overlap = [1, 1], [0, 0], [False, False]
+        st.window = True
         hdr = st.conn[C].initiate_upgrade_connection()
         st.pipe[C] += st.conn[C].data_to_send()
         st.conn[S].initiate_upgrade_connection(hdr)
@@ -216,6 +218,7 @@ class Spec(c01.Spec):
         st2 = pickle.loads(pickle.dumps(st))
         errs = st2.pump(lambda *a, **k: None)
         if not errs:
+            st2.window = False
             out.append(("upgraded", st2))
         return out
 
